@@ -359,6 +359,90 @@ pub fn fold_overwrite_bad(tags: &[Mask]) -> Vec<u8> {
 
 
 // ---------------------------------------------------------------------------------------------------------
+// stand-ins with the paths of the real crates (this crate has no dependencies): a fair RwLock and a concurrent map
+// ---------------------------------------------------------------------------------------------------------
+pub mod lock_api {
+    pub mod rwlock {
+        pub struct RwLock<R, T> {
+            inner: std::sync::RwLock<T>,
+            _r: std::marker::PhantomData<R>,
+        }
+        pub struct RwLockReadGuard<'a, T>(std::sync::RwLockReadGuard<'a, T>);
+        impl<'a, T> std::ops::Deref for RwLockReadGuard<'a, T> {
+            type Target = T;
+            fn deref(&self) -> &T {
+                &self.0
+            }
+        }
+        impl<R, T> RwLock<R, T> {
+            pub fn new(v: T) -> Self {
+                Self { inner: std::sync::RwLock::new(v), _r: std::marker::PhantomData }
+            }
+            pub fn read(&self) -> RwLockReadGuard<'_, T> {
+                RwLockReadGuard(self.inner.read().unwrap_or_else(|e| e.into_inner()))
+            }
+        }
+    }
+}
+
+pub mod dashmap {
+    use std::collections::HashMap;
+    use std::hash::Hash;
+    pub struct DashMap<K, V, S> {
+        inner: std::sync::Mutex<HashMap<K, V>>,
+        _s: std::marker::PhantomData<S>,
+    }
+    impl<K: Eq + Hash, V, S> DashMap<K, V, S> {
+        pub fn new() -> Self {
+            Self { inner: std::sync::Mutex::new(HashMap::new()), _s: std::marker::PhantomData }
+        }
+        pub fn remove(&self, k: &K) -> Option<(K, V)> {
+            self.inner.lock().ok()?.remove_entry(k)
+        }
+        pub fn insert(&self, k: K, v: V) -> Option<V> {
+            self.inner.lock().ok()?.insert(k, v)
+        }
+    }
+}
+
+pub struct Books {
+    pub map: dashmap::DashMap<u32, u64, ()>,
+    pub idx: lock_api::rwlock::RwLock<(), Vec<u32>>,
+}
+
+impl Books {
+    /// an overwrite in two map operations: the key is absent in between
+    pub fn replace_two_steps_bad(&self, k: u32, v: u64) -> bool {
+        let had = self.map.remove(&k).is_some();
+        self.map.insert(k, v);
+        had
+    }
+
+    pub fn replace_one_step_ok(&self, k: u32, v: u64) -> bool {
+        self.map.insert(k, v).is_some()
+    }
+
+    fn count(&self) -> usize {
+        self.idx.read().len()
+    }
+
+    /// read guard held while a callee read-locks the same fair RwLock
+    pub fn reread_bad(&self) -> usize {
+        let g = self.idx.read();
+        let n = self.count();
+        n + g.len()
+    }
+
+    pub fn reread_ok(&self) -> usize {
+        let n = {
+            let g = self.idx.read();
+            g.len()
+        };
+        n + self.count()
+    }
+}
+
+// ---------------------------------------------------------------------------------------------------------
 // E-bounds: index / range operations proven in bounds, or reported when the index derives from input (C02.R3)
 // ---------------------------------------------------------------------------------------------------------
 pub fn bounds_guarded_ok(data: &[u8]) -> Option<u8> {
@@ -423,6 +507,86 @@ pub fn bounds_callee_pre_ok(data: &[u8]) -> Option<[u8; 16]> {
         return None;
     }
     Some(key_at(&data[1..], ks))
+}
+
+pub struct Cur<'a> {
+    pub data: &'a [u8],
+    pub pos: usize,
+}
+
+impl<'a> Cur<'a> {
+    /// the guard is about the old `pos`: after the write the field is another value
+    pub fn bounds_field_write_bad(&mut self) -> u8 {
+        if self.pos < self.data.len() {
+            self.pos += 1;
+            return self.data[self.pos];
+        }
+        0
+    }
+
+    pub fn bounds_field_write_ok(&mut self) -> u8 {
+        if self.pos < self.data.len() {
+            let b = self.data[self.pos];
+            self.pos += 1;
+            return b;
+        }
+        0
+    }
+
+    fn advance(&mut self) {
+        self.pos += 1;
+    }
+
+    /// same, the write happens in a callee that got `&mut self`
+    pub fn bounds_field_callee_write_bad(&mut self) -> u8 {
+        if self.pos < self.data.len() {
+            self.advance();
+            return self.data[self.pos];
+        }
+        0
+    }
+}
+
+/// a divisor read from the input without a zero test
+pub fn div_unguarded_bad(data: &[u8]) -> usize {
+    if data.len() < 2 {
+        return 0;
+    }
+    let per = data[0] as usize;
+    data.len() / per
+}
+
+pub fn div_guarded_ok(data: &[u8]) -> usize {
+    if data.len() < 2 {
+        return 0;
+    }
+    let per = data[0] as usize;
+    if per == 0 {
+        return 0;
+    }
+    data.len() / per
+}
+
+/// byte offsets that are not known to be character boundaries
+pub fn str_prefix_bad(key: &str) -> Option<&str> {
+    if key.len() < 4 {
+        return None;
+    }
+    Some(&key[4..])
+}
+
+pub fn str_find_ok(line: &str) -> Option<(&str, &str)> {
+    let p = line.find('=')?;
+    Some((&line[..p], &line[p + 1..]))
+}
+
+pub fn str_find_closure_plus_one_bad(line: &str) -> Option<&str> {
+    let p = line.find(|c: char| !c.is_alphanumeric())?;
+    Some(&line[p + 1..])
+}
+
+pub fn str_get_ok(key: &str) -> Option<&str> {
+    key.get(4..)
 }
 
 // ---------------------------------------------------------------------------------------------------------
